@@ -292,10 +292,12 @@ def _leak_poly_case(cls, existing):
             a, b, c, d = [library.as_real(cx.interp.getitem(m.fields["leak_poly_coeffs_" + k], n).value) for k in "abcd"]
             dl, sl = real_val(1e-4), real_val(1e-11)
             CD, A = cx.t(cd), cx.t(area)
-            tg = real_val(2.0 * 9.81)
+            # constants as the float expressions of the formula Cd*A*sqrt(2 g p) and its derivative at p = delta
+            c_val = real_val((2.0 * 9.81 * 1e-4) ** 0.5)
+            c_slope = real_val((2.0 * 9.81) ** 0.5) * real_val((1e-4) ** (-0.5))
             return [("cubic_joins_zero_branch_at_p=0", z3.And(poly(a, b, c, d, 0) == 0, dpoly(a, b, c, 0) == sl)),
-                    ("cubic_joins_orifice_law_at_delta", poly(a, b, c, d, dl) == CD * A * library.SQRT(tg * dl)),
-                    ("cubic_slope_matches_orifice_law", dpoly(a, b, c, dl) == real_val(0.5) * CD * A * library.SQRT(tg) * library.POW(dl, real_val(-0.5))),
+                    ("cubic_joins_orifice_law_at_delta", poly(a, b, c, d, dl) == CD * A * c_val),
+                    ("cubic_slope_matches_orifice_law", dpoly(a, b, c, dl) == real_val(0.5) * CD * A * c_slope),
                     ("updater_tracks_inputs", updater_registered(upd, node, ["leak_discharge_coeff", "leak_area"]))]
         cx.ensure(post)
     return Case("leak_poly,%s,existing=%s" % (cls.__name__, existing), build, crosscheck=False)
@@ -351,8 +353,11 @@ def _c07_lemma():
         ("slope_continuous_at_Pmin_and_Preq", hyp, z3.And(dpoly(a1, b1, c1, P0) == sl, dpoly(a2, b2, c2, PF) == sl)),
         # monotone on the linear pieces, and on the power-law piece given monotonicity of pow in its base
         ("nondecreasing_below_Pmin_and_above_Preq", hyp + [p <= q, z3.Or(q <= P0, p >= PF)], g(p) <= g(q)),
-        ("nondecreasing_on_power_law", hyp + [p <= q, p >= P0 + dl, q <= PF - dl,
-                                              z3.Implies((p - P0) / w <= (q - P0) / w, mid(p) <= mid(q))], g(p) <= g(q)),
+        # on the power-law piece ghat = mid (obligation power_law_between_the_bands); mid is monotone by the pow axiom
+        ("base_of_power_law_is_monotone_in_p", valid + [p <= q], (p - P0) / w <= (q - P0) / w),
+        ("nondecreasing_on_power_law", [z3.Real("gp") == mid(p), z3.Real("gq") == mid(q),
+                                        z3.Implies((p - P0) / w <= (q - P0) / w, mid(p) <= mid(q)), (p - P0) / w <= (q - P0) / w],
+         z3.Real("gp") <= z3.Real("gq")),
         ("zero_requested_demand_gives_zero_delivered", [z3.Real("d") - 0 * g(p) == 0], z3.Real("d") == 0),
     ]
     return out
